@@ -509,7 +509,7 @@ impl WhenCalledBuilder<'_> {
     /// ```
     pub fn will_return_boolean(self, value: bool) {
         // Ensure the target function returns a bool
-        if !self.expected_signature.trim().ends_with("-> bool") {
+        if !signature_returns_bool(self.expected_signature) {
             panic!(
                 "Signature mismatch: will_return_boolean requires a function returning bool but got {}",
                 self.expected_signature
@@ -519,6 +519,33 @@ impl WhenCalledBuilder<'_> {
         let guard = self.when.will_return_boolean_guard(value);
         self.lib.guards.push(guard);
     }
+}
+
+/// Tells whether `signature`, the name of a function-pointer type such as
+/// `unsafe extern "C" fn(i32, fn() -> bool) -> bool`, has `bool` as its return type.
+///
+/// The return type is what follows the parenthesis that closes the parameter list of the
+/// outermost `fn`; looking only at how the text ends would also accept `fn() -> fn() -> bool`.
+fn signature_returns_bool(signature: &str) -> bool {
+    let sig = signature.trim();
+    let Some(fn_pos) = sig.find("fn(") else {
+        return false;
+    };
+
+    let params_start = fn_pos + 2;
+    let mut depth: usize = 0;
+    for (i, &b) in sig.as_bytes()[params_start..].iter().enumerate() {
+        if b == b'(' {
+            depth += 1;
+        } else if b == b')' {
+            depth -= 1;
+            if depth == 0 {
+                return sig[params_start + i + 1..].trim() == "-> bool";
+            }
+        }
+    }
+
+    false
 }
 
 pub struct WhenCalledBuilderAsync<'a> {
